@@ -142,6 +142,23 @@ def task(spec):
     style = STYLE[spec["calc"]]
     hamil = any(e[1].startswith("H") for e in spec["table"])
 
+    if spec.get("only") is None and depth > 2:
+        from qv.checks.c03 import _late as _l
+        from qv.core import plan_depth
+
+        def _mk(d):
+            def r(ch):
+                sysm, trials = execute(spec, ch, d, policy, setup=_l(spec))
+                sysm.close()
+                return trials
+
+            return r
+
+        planned, _e1 = plan_depth(_mk, depth, cap=50_000)
+        if planned < depth:
+            counters["specs_with_reduced_depth"] = 1
+        depth = planned
+
     def run(ch):
         from qv.checks.c03 import _late
 
